@@ -16,6 +16,7 @@ import (
 	"github.com/anoideaopen/foundation/core/types/big"
 	fpb "github.com/anoideaopen/foundation/proto"
 	"github.com/anoideaopen/foundation/token"
+	"github.com/hyperledger/fabric-chaincode-go/shim"
 	"github.com/golang/protobuf/proto" //nolint:staticcheck
 	"github.com/sirupsen/logrus"
 	"google.golang.org/protobuf/encoding/protojson"
@@ -124,7 +125,10 @@ func (t *HToken) TxBurn(sender *types.Sender, amount *big.Int) error {
 
 // runScript executes "op,a,b;op,a;..." against the contract's current stub.
 func (t *HToken) runScript(script string) (string, error) {
-	stub := t.GetStub()
+	return runScriptOn(t.GetStub(), script)
+}
+
+func runScriptOn(stub shim.ChaincodeStubInterface, script string) (string, error) {
 	var out []string
 	for _, step := range strings.Split(script, ";") {
 		if step == "" {
@@ -292,6 +296,22 @@ func (w *World) AddToken(symbol string, o ChanOpts) (*Channel, error) {
 	return ch, nil
 }
 
+// AddTokenAs deploys the harness token under the peer key [key] as chaincode [ccName] on channel [channelID]
+// (a chaincode that is not named after its channel, e.g. the second chaincode of a channel).
+func (w *World) AddTokenAs(key, symbol, ccName, channelID string, o ChanOpts) (*Channel, error) {
+	cc, err := core.NewCC(&HToken{})
+	if err != nil {
+		return nil, err
+	}
+	ch := w.Peer.AddChannel(key, cc)
+	ch.CCName, ch.ChannelID = ccName, channelID
+	res := w.Peer.Init(key, w.Admin.Creator, w.ConfigJSON(symbol, o))
+	if !res.OK() {
+		return nil, fmt.Errorf("init %s: %s", key, res.Message)
+	}
+	return ch, nil
+}
+
 // Submit sends one signed request as an ordinary invocation (batched Tx => pending record).
 func (w *World) Submit(ch string, fn string, args []string) *TxResult {
 	return w.Peer.Invoke(ch, w.Client.Creator, fn, args...)
@@ -412,6 +432,43 @@ func (t *HToken) TxPlain(script string) (string, error) { return t.runScript(scr
 func (t *HToken) QuerySym() (string, error) { return t.ContractConfig().GetSymbol(), nil }
 
 // HBase is a contract built on the base contract alone (no token section).
+// HExtToken is a token with a chaincode-specific configuration section of its own (ext_config: a Wallet
+// message whose address must not be empty), like the repository's industrial token: both the token
+// layer and the external layer validate the configuration.
+type HExtToken struct {
+	HToken
+	ext *fpb.Wallet
+}
+
+func (t *HExtToken) extOf(cfgBytes []byte) (*fpb.Wallet, error) {
+	var full fpb.Config
+	if err := protojson.Unmarshal(cfgBytes, &full); err != nil {
+		return nil, fmt.Errorf("unmarshalling config: %w", err)
+	}
+	var wl fpb.Wallet
+	if full.GetExtConfig() == nil || !full.GetExtConfig().MessageIs(&wl) {
+		return nil, errors.New("ext config: a wallet is required")
+	}
+	if err := full.GetExtConfig().UnmarshalTo(&wl); err != nil {
+		return nil, fmt.Errorf("unmarshalling ext config: %w", err)
+	}
+	if wl.GetAddress() == "" {
+		return nil, errors.New("ext config: empty address")
+	}
+	return &wl, nil
+}
+
+func (t *HExtToken) ValidateExtConfig(cfgBytes []byte) error {
+	_, err := t.extOf(cfgBytes)
+	return err
+}
+
+func (t *HExtToken) ApplyExtConfig(cfgBytes []byte) error {
+	wl, err := t.extOf(cfgBytes)
+	t.ext = wl
+	return err
+}
+
 type HBase struct {
 	core.BaseContract
 }
